@@ -155,6 +155,62 @@ pub fn child_race(seed: u64, threads: usize) {
     if rec != seq_rec { println!("FAIL moved encoder result differs from sequential"); std::process::exit(1); }
     let want: Vec<(usize, Vec<u8>)> = vec![(0, originals[0].clone()), (2, originals[2].clone()), (4, originals[4].clone())];
     if restored != want { println!("FAIL moved decoder result differs"); std::process::exit(1); }
+    // ping-pong: one decoder (and one encoder) bounce between three long-lived worker threads over many
+    // rounds, with loss patterns drawn from a pool of two so that patterns repeat across threads
+    // (per-thread state keyed on "what this object did last" shows up as a wrong result)
+    {
+        type Job = Box<dyn FnOnce() + Send>;
+        let workers: Vec<mpsc::Sender<Job>> = (0..3).map(|_| {
+            let (tx, rx) = mpsc::channel::<Job>();
+            std::thread::spawn(move || { while let Ok(j) = rx.recv() { j(); } });
+            tx
+        }).collect();
+        for (k, r, sb) in [(5usize, 3usize, 66usize), (3, 5, 64), (6, 6, 2)] {
+            let mut dec = Some(ReedSolomonDecoder::new(k, r, sb).unwrap());
+            let mut enc = Some(ReedSolomonEncoder::new(k, r, sb).unwrap());
+            // two loss patterns (sets of missing originals, each replaced by a recovery shard)
+            let m = r.min(k);
+            let pats: Vec<Vec<usize>> = (0..2).map(|_| { let n = rng.range(1, m); rng.subset(k, n) }).collect();
+            for round in 0..10 {
+                let originals: Vec<Vec<u8>> = (0..k).map(|_| rng.bytes(sb)).collect();
+                let (w_enc, w_dec) = (rng.below(3), rng.below(3));
+                // encode on one worker
+                let (etx, erx) = mpsc::channel();
+                let mut e = enc.take().unwrap();
+                let o = originals.clone();
+                workers[w_enc].send(Box::new(move || {
+                    for x in &o { e.add_original_shard(x).unwrap(); }
+                    let rec: Vec<Vec<u8>> = e.encode().unwrap().recovery_iter().map(|s| s.to_vec()).collect();
+                    etx.send((e, rec)).unwrap();
+                })).unwrap();
+                let (e, rec) = match erx.recv_timeout(Duration::from_secs(20)) { Ok(x) => x, Err(_) => { println!("FAIL ping-pong encoder worker died"); std::process::exit(1); } };
+                enc = Some(e);
+                if rec != reed_solomon_simd::encode(k, r, &originals).unwrap() {
+                    println!("FAIL ping-pong encoder (round {}) differs from sequential", round);
+                    std::process::exit(1);
+                }
+                // decode on another worker, pattern from the pool
+                let missing = pats[rng.below(2)].clone();
+                let (dtx, drx) = mpsc::channel();
+                let mut d = dec.take().unwrap();
+                let (o, rc, miss) = (originals.clone(), rec.clone(), missing.clone());
+                workers[w_dec].send(Box::new(move || {
+                    for i in 0..o.len() { if !miss.contains(&i) { d.add_original_shard(i, &o[i]).unwrap(); } }
+                    for j in 0..miss.len() { d.add_recovery_shard(j, &rc[j]).unwrap(); }
+                    let restored: Vec<(usize, Vec<u8>)> = d.decode().unwrap().restored_original_iter().map(|(i, s)| (i, s.to_vec())).collect();
+                    dtx.send((d, restored)).unwrap();
+                })).unwrap();
+                let (d, restored) = match drx.recv_timeout(Duration::from_secs(20)) { Ok(x) => x, Err(_) => { println!("FAIL ping-pong decoder worker died"); std::process::exit(1); } };
+                dec = Some(d);
+                let mut want: Vec<(usize, Vec<u8>)> = missing.iter().map(|i| (*i, originals[*i].clone())).collect();
+                want.sort();
+                if restored != want {
+                    println!("FAIL ping-pong decoder {}:{} round {} on worker {} (missing {:?}) differs from the encoded originals", k, r, round, w_dec, missing);
+                    std::process::exit(1);
+                }
+            }
+        }
+    }
     // sequential recomputation (tables warm now)
     for t in 0..threads {
         if job(kinds[t], seeds[t]) != results[t] {
